@@ -184,6 +184,10 @@ class ImplRunner:
                 if op[1] >= len(self.pool):
                     return [9]
                 st = self.pool[op[1]]
+                if len(op) > 4 and op[4]:
+                    # the state as restored from a checkpoint (plain numbers -> float64 array -> State.from_numpy)
+                    from nasim.envs.state import State
+                    st = State.from_numpy(np.array(st.tensor.tolist(), dtype=np.float64), st.tensor.shape, st.host_num_map)
                 self.shim.k, self.shim.calls = op[3], 0
                 self.shim.install()
                 try:
